@@ -1532,18 +1532,40 @@ package sod
 //@ modifies Ghost.FSk, Ghost.FSc, MapDom[string,Object], MapCard[string,Object], Async.routineStarted, MapDom[string,*Schema]@db.schemas, MapVal[string,*Schema]@db.schemas, MapCard[string,*Schema]@db.schemas
 //@ allocates Async.Enable, Async.Threshold, Async.Timeout, Elem[*indexedField], Elem[interface{}], Elem[string], Elem[uint8], MapCard[string,*fieldIndex], MapCard[string,uint64], MapCard[uint64,*indexedField], MapCard[uint64,string], MapDom[string,*fieldIndex], MapDom[string,uint64], MapDom[uint64,*indexedField], MapDom[uint64,string], MapVal[string,*fieldIndex], MapVal[string,uint64], MapVal[uint64,*indexedField], MapVal[uint64,string], Schema.AsyncWrites, Schema.Cache, Schema.Compress, Schema.Extension, Schema.Fields, Schema.ObjectIndex, Schema.coherent, Schema.db, Schema.object, Schema.transformers, fieldIndex.Cast, fieldIndex.Constraints.Index, fieldIndex.Constraints.Lower, fieldIndex.Constraints.Unique, fieldIndex.Constraints.Upper, fieldIndex.Index, fieldIndex.Name, fieldIndex.nameSplit, fieldIndex.objectIds, fieldIndex.pos, indexedField.ObjectId, indexedField.Value, objIndex.Fields, objIndex.ObjectIds, objIndex.i, objIndex.otype, objIndex.uuids, objIndex.ver
 
-//@ func (*DB).flushDB
+//@ func (*objectStore).flush
 //@ serves C10 C08 C09 C04
-//@ trusted "assumed (with objectStore.flush): the pending writes of every collection are written and removed"
-//@ requires [wf] wfDB(db)
+//@ requires [wf] wfDB(db) && s == db.asyncw
+//@ requires [pending-loaded] forallk(t, string, forallk(u, string, imp(has(db.asyncw.m, t) && has(db.asyncw.m[t].m, u), has(db.schemas, t))))
 //@ requires [C08 locked] H == 2
 //@ requires [C09 lock-free] SL == 0 && HS == 0 && HM == 0
+//@ assume [single-collection] forallk(t1, string, forallk(t2, string, imp(has(db.schemas, t1) && has(db.schemas, t2), t1 == t2)))
+//@ ensures [C10 sflush.done] imp(err == nil, forallk(t, string, imp(has(db.schemas, t), forallk(u, string, !pend(db, db.schemas[t], u)))))
+//@ ensures [C10 sflush.effect] forallk(t, string, imp(has(db.schemas, t), flushedColl(db, db.schemas[t])))
+//@ ensures [C01 sflush.wf] wfDB(db)
+//@ ensures [C01 sflush.table] db.schemas == old(db.schemas) && forallk(t, string, has(db.schemas, t) == old(has(db.schemas, t)) && db.schemas[t] == old(db.schemas[t]))
+//@ loop 1 invariant [frame] preserved(DB.schemas, DB.cache, DB.asyncw, DB.root, objectStore.m, objectMap.m, Schema.ObjectIndex, Schema.Extension, Schema.Compress, Schema.coherent, Schema.AsyncWrites, Schema.Cache, Object.content, Object.uuid) && preservedAt(MapDom[string,*Schema], db.schemas) && preservedAt(MapVal[string,*Schema], db.schemas) && preservedAt(MapCard[string,*Schema], db.schemas) && preserved(MapDom[string,*objectMap], MapVal[string,*objectMap], MapCard[string,*objectMap], MapVal[string,Object])
+//@ loop 1 invariant [locals] H == 2 && HS == 2 && HM == 0 && SL == 0
+//@ loop 1 invariant [table] db.schemas == old(db.schemas) && forallk(t, string, has(db.schemas, t) == old(has(db.schemas, t)) && db.schemas[t] == old(db.schemas[t]))
+//@ loop 1 invariant [wf] wfDB(db)
+//@ loop 1 invariant [pending-loaded] forallk(t, string, forallk(u, string, imp(has(db.asyncw.m, t) && has(db.asyncw.m[t].m, u), has(db.schemas, t))))
+//@ loop 1 invariant [unvisited] forallk(t, string, imp(has(db.schemas, t) && !visited(t), FSk == old(FSk) && FSc == old(FSc) && asyncwSame(db)))
+//@ loop 1 invariant [visited] forallk(t, string, imp(has(db.schemas, t) && (visited(t) || !has(db.asyncw.m, t)), flushedColl(db, db.schemas[t]) && imp(err == nil, forallk(u, string, !pend(db, db.schemas[t], u)))))
+//@ modifies Ghost.FSk, Ghost.FSc, MapDom[string,Object], MapCard[string,Object], Async.routineStarted, MapDom[string,*Schema]@db.schemas, MapVal[string,*Schema]@db.schemas, MapCard[string,*Schema]@db.schemas
+//@ allocates Async.Enable, Async.Threshold, Async.Timeout, Elem[*indexedField], Elem[interface{}], Elem[string], Elem[uint8], MapCard[string,*fieldIndex], MapCard[string,uint64], MapCard[uint64,*indexedField], MapCard[uint64,string], MapDom[string,*fieldIndex], MapDom[string,uint64], MapDom[uint64,*indexedField], MapDom[uint64,string], MapVal[string,*fieldIndex], MapVal[string,uint64], MapVal[uint64,*indexedField], MapVal[uint64,string], Schema.AsyncWrites, Schema.Cache, Schema.Compress, Schema.Extension, Schema.Fields, Schema.ObjectIndex, Schema.coherent, Schema.db, Schema.object, Schema.transformers, fieldIndex.Cast, fieldIndex.Constraints.Index, fieldIndex.Constraints.Lower, fieldIndex.Constraints.Unique, fieldIndex.Constraints.Upper, fieldIndex.Index, fieldIndex.Name, fieldIndex.nameSplit, fieldIndex.objectIds, fieldIndex.pos, indexedField.ObjectId, indexedField.Value, objIndex.Fields, objIndex.ObjectIds, objIndex.i, objIndex.otype, objIndex.uuids, objIndex.ver
+
+//@ func (*DB).flushDB
+//@ serves C10 C08 C09 C04
+//@ requires [wf] wfDB(db)
+//@ requires [pending-loaded] forallk(t, string, forallk(u, string, imp(has(db.asyncw.m, t) && has(db.asyncw.m[t].m, u), has(db.schemas, t))))
+//@ requires [C08 locked] H == 2
+//@ requires [C09 lock-free] SL == 0 && HS == 0 && HM == 0
+//@ assume [single-collection] forallk(t1, string, forallk(t2, string, imp(has(db.schemas, t1) && has(db.schemas, t2), t1 == t2)))
 //@ ensures [C10 flushDB.done] imp(err == nil, forallk(t, string, imp(has(db.schemas, t), forallk(u, string, !pend(db, db.schemas[t], u)))))
 //@ ensures [C10 flushDB.effect] forallk(t, string, imp(has(db.schemas, t), flushedColl(db, db.schemas[t])))
-//@ ensures [C10 flushDB.storage] imp(err != nil, isStorage(err))
 //@ ensures [C01 flushDB.wf] wfDB(db)
 //@ ensures [C01 flushDB.table] db.schemas == old(db.schemas) && forallk(t, string, has(db.schemas, t) == old(has(db.schemas, t)) && db.schemas[t] == old(db.schemas[t]))
-//@ modifies Ghost.FSk, Ghost.FSc, MapDom[string,Object], MapCard[string,Object], Async.routineStarted
+//@ modifies Ghost.FSk, Ghost.FSc, MapDom[string,Object], MapCard[string,Object], Async.routineStarted, MapDom[string,*Schema]@db.schemas, MapVal[string,*Schema]@db.schemas, MapCard[string,*Schema]@db.schemas
+//@ allocates Async.Enable, Async.Threshold, Async.Timeout, Elem[*indexedField], Elem[interface{}], Elem[string], Elem[uint8], MapCard[string,*fieldIndex], MapCard[string,uint64], MapCard[uint64,*indexedField], MapCard[uint64,string], MapDom[string,*fieldIndex], MapDom[string,uint64], MapDom[uint64,*indexedField], MapDom[uint64,string], MapVal[string,*fieldIndex], MapVal[string,uint64], MapVal[uint64,*indexedField], MapVal[uint64,string], Schema.AsyncWrites, Schema.Cache, Schema.Compress, Schema.Extension, Schema.Fields, Schema.ObjectIndex, Schema.coherent, Schema.db, Schema.object, Schema.transformers, fieldIndex.Cast, fieldIndex.Constraints.Index, fieldIndex.Constraints.Lower, fieldIndex.Constraints.Unique, fieldIndex.Constraints.Upper, fieldIndex.Index, fieldIndex.Name, fieldIndex.nameSplit, fieldIndex.objectIds, fieldIndex.pos, indexedField.ObjectId, indexedField.Value, objIndex.Fields, objIndex.ObjectIds, objIndex.i, objIndex.otype, objIndex.uuids, objIndex.ver
 
 //@ func (*DB).flushAllAndCommit
 //@ serves C10 C04 C08 C09
@@ -1566,6 +1588,7 @@ package sod
 //@ requires [wf] wfDB(db)
 //@ requires [C09 lock-free] lockFree()
 //@ assume [single-collection] forallk(t1, string, forallk(t2, string, imp(has(db.schemas, t1) && has(db.schemas, t2), t1 == t2)))
+//@ assume [pending-loaded] forallk(t, string, forallk(u, string, imp(has(db.asyncw.m, t) && has(db.asyncw.m[t].m, u), has(db.schemas, t))))
 //@ ensures [C08 one-section] ACQ_H == old(ACQ_H) + 1
 //@ ensures [C04 C10 Close.flushed-and-committed] imp(last == nil, forallk(t, string, imp(has(db.schemas, t), committed(db, db.schemas[t]) && forallk(u, string, !pend(db, db.schemas[t], u)))))
 //@ ensures [C01 Close.wf] wfDB(db)
@@ -1577,6 +1600,7 @@ package sod
 //@ loop 1 invariant [committed] imp(last == nil, forallk(t, string, imp(has(db.schemas, t) && visited(t), committed(db, db.schemas[t]))))
 //@ modifies Ghost.ACQ_H, Ghost.FSk, Ghost.FSc, MapDom[string,Object], MapCard[string,Object], Async.routineStarted, MapDom[string,*Schema]@db.schemas, MapVal[string,*Schema]@db.schemas, MapCard[string,*Schema]@db.schemas
 //@ allocates Async.Enable, Async.Threshold, Async.Timeout, Elem[*indexedField], Elem[string], Elem[uint8], MapCard[string,*fieldIndex], MapCard[string,uint64], MapCard[uint64,*indexedField], MapCard[uint64,string], MapDom[string,*fieldIndex], MapDom[string,uint64], MapDom[uint64,*indexedField], MapDom[uint64,string], MapVal[string,*fieldIndex], MapVal[string,uint64], MapVal[uint64,*indexedField], MapVal[uint64,string], Schema.AsyncWrites, Schema.Cache, Schema.Compress, Schema.Extension, Schema.Fields, Schema.ObjectIndex, Schema.coherent, Schema.db, Schema.object, Schema.transformers, fieldIndex.Cast, fieldIndex.Constraints.Index, fieldIndex.Constraints.Lower, fieldIndex.Constraints.Unique, fieldIndex.Constraints.Upper, fieldIndex.Index, fieldIndex.Name, fieldIndex.nameSplit, fieldIndex.objectIds, fieldIndex.pos, indexedField.ObjectId, indexedField.Value, objIndex.Fields, objIndex.ObjectIds, objIndex.i, objIndex.otype, objIndex.uuids, objIndex.ver
+//@ allocates Elem[interface{}]
 
 // ---- integrity control (C11) ---------------------------------------------------------------
 
